@@ -131,7 +131,11 @@ Judged(c, r, e, lay, alt, m, ran) ==
                          /\ RegsOK(e.sms, r.smregs, ModePdoOut, DirBytes(alt, SmOut))
                          /\ RegsOK(e.sms, r.smregs, ModePdoIn, DirBytes(alt, SmIn))),
      assign |-> IF ~ran THEN "n/a"
-                ELSE IF AsgOK(r.outp, r.assigned.out) /\ AsgOK(r.inp, r.assigned.inp) THEN "ok" ELSE "bad",
+                ELSE IF ~(AsgOK(r.outp, r.assigned.out) /\ AsgOK(r.inp, r.assigned.inp)) THEN "bad"
+                ELSE IF m /\ ~r.cls.generic /\ ~(/\ (r.outp.set => AssignmentAdmissible(c.od, r.outp.pdos))
+                                                  /\ (r.inp.set => AssignmentAdmissible(c.od, r.inp.pdos)))
+                     THEN "excluded"
+                ELSE "ok",
      decls |-> [k \in 1 .. Len(r.decls) |->
                   IF ran /\ m THEN DeclOrAlt(DeclVerdict(lay, r.decls[k], r.decls[k].res), alt, r.decls[k])
                   ELSE <<"free", "n/a">>],
